@@ -126,8 +126,8 @@ def run(ctx):
             msg = f"C20: relation {what} fails on the solved device: largest difference {worst} quanta of 1e-9 of the scale (tolerance {TOL_REL}); values {extra}"
             key = f"C20:rel:{what}"
         if reported < 12:
-            ctx.violation(key, msg, {"trace": t, "label": labels[n]})
-            reported += 1
+            if ctx.violation(key, msg, {"trace": t, "label": labels[n]}):      # known findings do not use up the report limit
+                reported += 1
         else:
             ctx.cov["further_rejected_traces"] = ctx.cov.get("further_rejected_traces", 0) + 1
     for n in sorted(accepted)[:2] + [x for x in sorted(accepted) if labels[x][0] == "relation"][:2]:
